@@ -88,4 +88,14 @@ PROPS["C15"] = {
     "assumptions": [],
 }
 
+PROPS["C13"] = {
+    "modules": ["Foundation.Proofs.C13"],
+    "level_text": "Machine-checked invariant over every history (any length) of lock/unlock requests naming the lock's own account: every existing lock has 0 < remaining <= initial and remaining = initial - everything unlocked so far; the record disappears exactly when the remaining amount reaches zero; an account's locked balance equals the sum of the remaining amounts of its locks (sum over a ghost log of ids); spendable + locked is unchanged by every request; no balance is negative; non-admin, duplicate id, non-positive amount, unfunded lock, unknown id, over-unlock and negative unlock are refused. Tied to the code by random histories through the four admin methods of both kinds with amounts around the remaining amount and read-back of records and balances.",
+    "level_note": "Trusted: Lean kernel + 3 axioms; the enclosing transaction is all-or-nothing (C04); JSON/proto decoding of requests; one model for both balance kinds (account = address or (address, token)); model = hand transcription of bc_external_locks.go after fix 5e7eca3 checked by the differential run.",
+    "trusted_base": ["core/bc_external_locks.go modelled by Foundation.Locks (one kind at a time)"],
+    "hypotheses": ["unlock requests name the lock's own address (the property's restriction); other requests are mirrored by the model but not covered by the invariant"],
+    "not_modelled": ["events emitted by lock/unlock", "docs/payload fields"],
+    "assumptions": [],
+}
+
 NOT_APPLICABLE = {}
